@@ -6,7 +6,7 @@ Correspondence: event scripts (length <= 14 after the prefix) over the whole alp
 future / callback / try_send style on queues of capacity 1..4, enable, disable, set-decode,
 shutdown, drop handle, abort, connect results, frames, partial frames, garbage, EOF, read error,
 write fault, slow write, virtual time - on the real ClientLoop and on the model (eager schedule).
-Thorough tier: every script over a reduced alphabet up to length 5 after `E CO` (exhaustive).
+Thorough tier: every script up to length 6 over two reduced alphabets after `E CO` (exhaustive sweep).
 """
 import itertools
 from checks import clientlib as cl
@@ -45,7 +45,9 @@ def directed():
     return cases
 
 
-SYMS = ['Sf', 'Sx', 'D', 'E', 'F*', 'T*', 'X', 'A', 'Z', 'H']
+# two reduced alphabets, each swept exhaustively up to length 6 after `E CO` in the thorough tier
+ALPHABETS = [['Sf', 'Sx', 'F*', 'T*', 'X', 'A'], ['Sf', 'D', 'E', 'Z', 'H', 'T*']]
+SYMS = sorted(set(ALPHABETS[0] + ALPHABETS[1]))
 
 
 def concretize(cfg, prefix, syms):
@@ -148,11 +150,13 @@ def run(ctx):
                 cases.append((cfg, cl.gen_random(r, cfg, r.choice([6, 10, 14]), w, prefix=cl.connected_prefix(r.choice('fx')))))
         if ctx.tier == 'thorough':
             cfg = {'cap': 1, 'handles': 1, 'mt': 1, 'rmin': 20 * MS, 'rmax': 40 * MS}
-            for ln in range(1, 6):
-                for syms in itertools.product(SYMS, repeat=ln):
-                    if ln == 5 and syms[0] not in ('Sf', 'Sx'):
-                        continue          # length 5 only after a submit (the rest is covered by a shorter script plus a no-op)
-                    cases.append(concretize(cfg, cl.connected_prefix(), syms))
+            seen = set()
+            for alphabet in ALPHABETS:
+                for ln in range(1, 7):
+                    for syms in itertools.product(alphabet, repeat=ln):
+                        if syms not in seen:
+                            seen.add(syms)
+                            cases.append(concretize(cfg, cl.connected_prefix(), syms))
             exhaustive = True
     impl, model = cl.run_both(ctx, cases, shards=16)
     n_mis, n_spec = cl.judge(ctx, 'C10', cases, impl, model)
@@ -179,7 +183,7 @@ def run(ctx):
         'evaluations': len(cases) + n_tie,
         'distinct_nontrivial': len(set(cl.to_line(c) for c, i in zip(cases, impl) if '|c' in i)),
         'rule': 'event scripts over the whole alphabet (directed scenarios first, then random scripts of up to 14 steps steered by a replica of the model'
-                + ('; plus every script over the reduced alphabet ' + ' '.join(SYMS) + ' up to length 4, and length 5 after a submit, following `E CO`' if exhaustive else '')
+                + ('; plus EVERY script up to length 6 over each of the reduced alphabets ' + ' / '.join(' '.join(a) for a in ALPHABETS) + ' following `E CO` (queue capacity 1, limit 1; F* = a frame with the outstanding tx id, T* = a tick to the next timer instant)' if exhaustive else '')
                 + '); non-trivial = at least one request completed; distinct by script text',
         'samples': [[cl.to_line(c), i] for c, i in list(zip(cases, impl))[:4]],
         'input_classes': dict(sorted(classes.items())),
